@@ -181,11 +181,17 @@ class CallMixin:
         return self.opaque_call(n, st, old)
 
     def spec(self, e, st, old):
+        """evaluate a contract expression.  If the code no longer has the shape the expression talks about (a loop index of a
+        loop that is not a for loop any more, a local that disappeared) the result is the marker SPEC-ERROR: as an assumption it
+        is dropped, as an obligation it is reported undecided -- never a crash and never a silent pass."""
         saved = self.spec_mode
         self.spec_mode = True
         self.nofork += 1
         try:
             return self.truth(self.ev(parse_expr(e) if isinstance(e, str) else e, st, old))
+        except (KeyError, AttributeError, IndexError, TypeError, NeedFork) as ex:
+            self.note("spec-error", f"{str(e)[:60]}: {type(ex).__name__} {ex}", getattr(self, "cur_line", 0))
+            return T(BOOL, "SPEC-ERROR")
         finally:
             self.nofork -= 1
             self.spec_mode = saved
